@@ -159,7 +159,7 @@ def step (d : DSt) (fs : List String) : DSt × String :=
     | _, _, _, _, _, _, _, _, _, _ => (d, "bad-op")
   | ["setstore", p, g, g2] =>
     match decRules p, decRules g, decRules g2 with
-    | some p, some g, some g2 => ({ d with st := { d.st with store := { p := p, g := g, g2 := g2 } } }, "model=-#~#~")
+    | some p, some g, some g2 => ({ d with st := { d.st with store := { p := p, g := g, g2 := g2 } } }, "model=-#~#~#~")
     | _, _, _ => (d, "bad-op")
   | "op" :: rest =>
     -- read-fed calls: the batch argument is what a read of the current state returns (value semantics: a composition)
@@ -176,7 +176,12 @@ def step (d : DSt) (fs : List String) : DSt × String :=
       let (s', r) := Casbin.Enf.stepX d.cfg d.st op
       let da := s'.alog.drop d.st.alog.length
       let dw := s'.wlog.drop d.st.wlog.length
-      ({ d with st := s' }, "model=" ++ showRet r ++ "#" ++ joinC (da.map showACall) ++ "#" ++ joinC (dw.map showWCall))
+      let de := s'.ev.drop d.st.ev.length
+      let showEv : Ev → String := fun e => match e with
+        | .adapter c => "a:" ++ showACall c
+        | .watcher w => "w:" ++ showWCall w
+      ({ d with st := s' }, "model=" ++ showRet r ++ "#" ++ joinC (da.map showACall) ++ "#" ++ joinC (dw.map showWCall) ++
+        "#" ++ joinC (de.map showEv))
   | "q" :: rest =>
     match query d d.st rest, (match specQuery d.st rest with | some x => some x | none => query d (fresh d.cfg d.st) rest) with
     | some a, some b => (d, "model=" ++ a ++ " spec=" ++ b)
